@@ -345,7 +345,7 @@ def _free(k, uname, runs, steps, maxupd, prop_id, seed, sc, binary):
     cfg = dict(seed=seed, runs=runs, steps=steps, max_upd=maxupd, stale_ok=True)
     obs, log = family.run_driver(binary, "TestVerifRescanFree", "-", os.path.join(sc, "fobs%d.ndjson" % k), sd,
                                  env_extra={"VERIF_UNIVERSE": uj, "VERIF_FREE": json.dumps(cfg)})
-    v = family.judge([SPEC, ud], "RescanProps", PROPS[prop_id], prop_id, obs, label=label)
+    v = _judge([SPEC, ud], prop_id, obs)
     consts = dict(UNBOUNDED)
     consts["Lag"] = bool(u["Lag"])
     consts.update(CODE_VERSION)
@@ -369,6 +369,34 @@ def _free(k, uname, runs, steps, maxupd, prop_id, seed, sc, binary):
             "rejected_by_spec": len(rej), "rejections_examined_up_to": 12}
     _slim(obs, v["violations"])
     return dict(obs=obs, v=v, rejected=len(rej), samples=samples, info=info)
+
+
+def _judge(spec_dirs, prop_id, obs, chunk=25000):
+    """family.judge in chunks of traces (one TLC each), so that neither the JVM
+    nor the trace file grows with the size of the tier."""
+    out = {"violations": [], "known": {}, "n_lines": 0, "wall": 0.0, "raw": 0}
+    known = core.load_known()
+    for i in range(0, max(len(obs), 1), chunk):
+        v = family.judge(spec_dirs, "RescanProps", PROPS[prop_id], prop_id, obs[i:i + chunk], label=label,
+                         known=known)
+        out["violations"] += v["violations"]
+        out["n_lines"] += v["n_lines"]
+        out["wall"] += v["wall"]
+        out["raw"] += v["raw"]
+        for kid, kv in v["known"].items():
+            if kid in out["known"]:
+                out["known"][kid]["count"] += kv["count"]
+            else:
+                out["known"][kid] = kv
+    return out
+
+
+class _Edges:
+    """What family.finish reads of a graph (number of edges, violating ones),
+    without the states and observations of a few hundred thousand edges."""
+    def __init__(self, g):
+        self.edges = [(0, 0, 0, 0, e[4]) for e in g.edges]
+        self.n_nodes = len(g.ids)
 
 
 def _slim(obs, violations, keep=3):
@@ -413,12 +441,13 @@ def _scenario(k, uname, over, prop_id, tier, seed, sc, binary, replay):
         if tier == "thorough":
             paths += core.random_walks(g, 1500, 60, rng)
         core.write_paths(g, paths, pf)
+        g = _Edges(g)
         shutil.rmtree(os.path.join(sc, "tlc%d" % k), ignore_errors=True)
     sd = os.path.join(sc, "run%d" % k)
     os.makedirs(sd, exist_ok=True)
     obs, log = family.run_driver(binary, "TestVerifRescanReplay", pf, os.path.join(sc, "obs%d.ndjson" % k), sd,
                                  env_extra={"VERIF_UNIVERSE": uj})
-    v = family.judge([SPEC, ud], "RescanProps", PROPS[prop_id], prop_id, obs, label=label)
+    v = _judge([SPEC, ud], prop_id, obs)
     (a, b, c), nr = drift(pf, obs)
     # make trace ids unique over scenarios, remember the universe for replays
     for t in obs:
